@@ -233,15 +233,11 @@ def bjorckPereyra (invLoc : List Nat) (syn : List Nat) : R (List Nat × List Nat
     s := s.set i (← div' "syn[i] /= x_loc[i]" cur (x.getD i 0))
   return (x, s)
 
-/-- `decode_gen` on one block given as (data part, error part) already de-interleaved:
-returns the corrected (data part, error part). -/
-def decodeBlock (dataB errB : List Nat) (errLen : Nat) : R (List Nat × List Nat) := do
+/-- steps 2–4 of `decode_gen` (locator, Chien search, malfunction test, error values, correction)
+for a block whose syndromes `syn` are not all zero -/
+def correctBlock (dataB errB : List Nat) (errLen : Nat) (syn : List Nat) : R (List Nat × List Nat) := do
   let nData := dataB.length
   let n := nData + errB.length
-  if errLen < 1 then throw (.panic "assert err_len >= 1")
-  if n ≤ errLen then throw (.panic "assert n > err_len")
-  let syn := syndromes (dataB ++ errB) errLen
-  if syn.all (· == 0) then return (dataB, errB)
   let lambda ← levinsonDurbin syn
   let roots ← chienSearch lambda
   if roots.length ≠ lambda.length - 1 ∨ roots.head? = some 0 then throw .malfunction
@@ -266,25 +262,39 @@ def decodeBlock (dataB errB : List Nat) (errLen : Nat) : R (List Nat × List Nat
       else e := e.set (pos - nData) (gadd (e.getD (pos - nData) 0) err)
   return (d, e)
 
+/-- `decode_gen` on one block given as (data part, error part) already de-interleaved:
+returns the corrected (data part, error part). -/
+def decodeBlock (dataB errB : List Nat) (errLen : Nat) : R (List Nat × List Nat) :=
+  if errLen < 1 then .error (.panic "assert err_len >= 1")
+  else if dataB.length + errB.length ≤ errLen then .error (.panic "assert n > err_len")
+  else
+    let syn := syndromes (dataB ++ errB) errLen
+    if syn.all (· == 0) then .ok (dataB, errB)      -- `if !have_non_zero { return Ok(()) }`
+    else correctBlock dataB errB errLen syn
+
 /-- write a de-interleaved block back at stride positions -/
 def scatter (l : List Nat) (blk : List Nat) (start stride : Nat) : List Nat :=
   (blk.zipIdx.foldl (fun acc p => acc.set (start + p.2 * stride) p.1) l)
 
+/-- the `for block in 0..num_ecc_blocks` loop of `decode` -/
+def decodeBlocks (blocks eccPer : Nat) : List Nat → List Nat → List Nat → R (List Nat × List Nat)
+  | [], data, err => .ok (data, err)
+  | b :: bs, data, err =>
+    if b > data.length ∨ b > err.length then .error (.panic "data[block..]")
+    else
+      match decodeBlock (strided data b blocks) (strided err b blocks) eccPer with
+      | .error x => .error x
+      | .ok (dB, eB) => decodeBlocks blocks eccPer bs (scatter data dB b blocks) (scatter err eB b blocks)
+
 /-- `decode(codewords, size)`: the corrected vector; on an error the result is the error only
 (the Rust function leaves the slice partially corrected, which is not observable through
 `DataMatrix::decode`). -/
-def decode (s : Sym) (cw : List Nat) : R (List Nat) := do
+def decode (s : Sym) (cw : List Nat) : R (List Nat) :=
   let r := row s
-  if cw.length < r.dataCw then throw (.panic "split_at_mut")
-  let mut data := cw.take r.dataCw
-  let mut err := cw.drop r.dataCw
-  for b in List.range r.blocks do
-    if b > data.length ∨ b > err.length then throw (.panic "data[block..]")
-    let dB := strided data b r.blocks
-    let eB := strided err b r.blocks
-    let (dB', eB') ← decodeBlock dB eB r.eccPer
-    data := scatter data dB' b r.blocks
-    err := scatter err eB' b r.blocks
-  return data ++ err
+  if cw.length < r.dataCw then .error (.panic "split_at_mut")
+  else
+    match decodeBlocks r.blocks r.eccPer (List.range r.blocks) (cw.take r.dataCw) (cw.drop r.dataCw) with
+    | .error x => .error x
+    | .ok (d, e) => .ok (d ++ e)
 
 end DM.Model.RS
